@@ -21,7 +21,7 @@ from ..astutil import (
 )
 from ..cfg import cfg_of, deref_at
 from ..loader import AnalysisError, FuncInfo
-from .common import MAINT, TRANSFER, backend_refs, func_label, loc, nested_by_role, repo_cls, self_calls
+from .common import MAINT, TRANSFER, backend_refs, func_label, loc, nested_by_role, reaches, repo_cls, self_calls
 
 EXPLANATION = (
     'Lexical enclosure of every self.backend.<transfer> reference in a slot-acquiring with-statement; shape of the two slot acquirers (token obtained from '
@@ -752,6 +752,38 @@ def r8_tokens(ctx):
     )
 
 
+def r10_credentials_replaced_not_removed(ctx):
+    """Re-authorisation runs while other workers keep issuing requests with the old token (they get 401 and wait for the
+    new one).  authenticate therefore REPLACES the cached authorisation; it never removes it first - a request started in
+    between would die with AttributeError, which nothing retries."""
+    corpus = ctx.corpus
+    n = 0
+    for ci in corpus.subclasses_of(corpus.cls('base', 'Backend')):
+        au = ci.methods.get('authenticate')
+        if au is None:
+            continue
+        n += 1
+        ctx.analysed(au)
+
+        def removes(node):
+            if isinstance(node, ast.Delete) and any(isinstance(t, ast.Attribute) and isinstance(t.value, ast.Name) and t.value.id == 'self' for t in node.targets):
+                return True
+            if isinstance(node, ast.Call) and (dotted(node.func) or '') == 'delattr' and node.args and isinstance(node.args[0], ast.Name) and node.args[0].id == 'self':
+                return True
+            return False
+
+        bad = reaches(corpus, au, removes, depth=3)
+        ctx.check(
+            not bad,
+            'C09.R10',
+            f'{func_label(au)}|credentials-replaced-not-removed',
+            loc(au, au.node),
+            f'{ci.name}.authenticate: replaces the cached authorisation, never deletes attributes of the adapter',
+            f'{ci.name}.authenticate (or a helper it calls) deletes attributes of the adapter before the new authorisation is there: a request another worker starts meanwhile fails with AttributeError instead of 401 -> wait -> retry',
+        )
+    ctx.count('adapters_with_authenticate', n)
+
+
 def run(ctx):
     acq = r1_enclosure(ctx)
     r2_release(ctx, acq)
@@ -768,3 +800,12 @@ def run(ctx):
     from .shared import gathers_propagate
 
     gathers_propagate(ctx, 'C09.R5')
+    # state shared by the worker / loader threads outside snapshot and restore themselves: the limiter's debt (updated and
+    # slept off under its lock), the snapshot cache (directories created idempotently), the adapter's credentials
+    from ..report import Relabel as _RL9
+    from .c18 import r5_helpers as _ch
+    from .c20 import r4_debt_lock as _dl
+
+    _dl(_RL9(ctx, 'C09.R6'))
+    _ch(_RL9(ctx, 'C09.R6'))
+    r10_credentials_replaced_not_removed(ctx)
